@@ -10,11 +10,18 @@ from harness.core.trees import Universe
 
 PID = "C01"
 RULE = ("a case is a parser set-up: 1-3 registrations of dataclass trees (leaf fields over the CLI type grammar with "
-        "defaults / default factories incl. falsy values, nested members to depth 3, Optional members with None / factory "
-        "defaults, inheritance, the same class at several destinations) x one of the 4x3x2x3 parser configurations x "
-        "{parse(), ArgumentParser} x {no caller default, full default instance, instance with nested None}; the empty "
-        "command line is parsed and every destination compared with the constructor's own result (or the caller's "
-        "instance). Non-trivial = a nested member, a caller default or >= 2 registrations; distinct by canonical JSON.")
+        "defaults / default factories incl. falsy values, int defaults of float fields, Literals whose values share a name; "
+        "nested members to depth 3, Optional members with None / factory defaults, the empty dataclass, classes split into a "
+        "base class and a subclass that may re-declare a field with another default, the same class at several "
+        "destinations, twice inside one tree and shared between trees) x one of the 4x3x2x3 parser configurations x "
+        "{parse(), ArgumentParser} x {no caller default, full default instance, instance with nested None}; ~4% of the "
+        "cases are classes the constructor cannot build and no caller default (property silent; the model's exit-2 branch "
+        "is compared). The empty command line is parsed and every destination compared with the constructor's own result "
+        "(or the caller's instance); then every mutable container of the result is modified and a fresh parser must still "
+        "return the pristine defaults. Non-trivial = a nested member, a caller default or >= 2 registrations; distinct by "
+        "canonical JSON. The thorough tier starts with an enumerated, seed-independent slice: 51 small shapes (flat class x "
+        "6-annotation alphabet; parent + member x every member-default kind x Optional or not x caller default kinds) under "
+        "every one of the 72 (ArgumentParser) + 36 (parse()) configurations. Not generated: dict-valued caller defaults (the property speaks of default instances).")
 ASSUMPTIONS = ["dataclasses' constructor semantics (it is the reference)", "default factories are pure (constant functions)"]
 TRUSTED = ["stdlib dataclasses / argparse"]
 EXHAUSTIVE = {"quick": False, "thorough": False}
@@ -22,20 +29,29 @@ MANIFEST = {
     "text": ("Proof (partial): Lean model of the default cascade (caller instance pushed down, wrapper defaults, field "
              "default / factory), argparse's string-default conversion, postprocess and bottom-up instantiation with the "
              "Optional rule (an Optional member is None only when its own default is None, since fix 14a7541); theorems by "
-             "mutual induction over the class tree, any depth and width: for trees whose leaves are stable under "
-             "conversion+postprocess the empty parse equals the constructor's own result (c01_no_caller, "
-             "c01_member_factory), and with a caller instance it equals that instance (c01_caller_default). The one named "
-             "gap: leaf stability fails for a string held by a Union-typed leaf — Union[float,str] default '0' is converted "
-             "to 0.0 by argparse (witness theorem c01_union_default_witness, open finding C01-union-str-default-converted). "
-             "Everywhere else on the grammar stability is proved, not assumed (leafStable_of_stableDefault: list, tuple, "
-             "variadic tuple, str, bool, Path, Enum, Optional[...] holding None or a value, int/float/Any, Union holding a "
-             "non-string), so c01_caller_default_typed needs no stability hypothesis: any instance whose leaves are typed "
-             "values comes back unchanged. The model is configuration-free (option spelling cannot matter "
-             "for an empty argv); that the real parser agrees under all 72 configurations and both APIs is what the "
-             "correspondence and the oracle check on every run."),
+             "mutual induction over the class tree, any depth and width. With purely syntactic hypotheses: "
+             "c01_no_caller_typed — a class all of whose fields carry typed defaults of their own (default_factory=Cls "
+             "members, default_factory=lambda: inst members, Optional members = None, distinct field names) parses the empty "
+             "command line to exactly what the constructor builds; c01_caller_default_wellTyped — a caller instance whose "
+             "leaf values are well-typed comes back unchanged, Optional members left at None included. 'An Optional member "
+             "left None stays None' is proved (quietNone_of_quietF / quietNone_of_syn: any subtree, required fields "
+             "included), not assumed. Leaf stability is complete on the grammar: WellTyped + modelled annotation implies "
+             "stable (c01_typed_defaults_partial) except two named decidable exclusions, each refuted by a witness theorem "
+             "and recorded as open finding: a string held by a Union-typed leaf (Union[float,str]='0' comes back 0.0: "
+             "c01_union_default_typed_witness, C01-union-str-default-converted) and a Literal string value whose name "
+             "belongs to a later value (Literal['0',0]='0' comes back int 0: c01_literal_collision_witness, "
+             "C01-literal-name-collision). The semantic versions (c01_no_caller, c01_member_factory, c01_caller_default "
+             "under LeafStable / QuietNone) remain for leaves outside WellTyped. The model is configuration-free (option "
+             "spelling cannot matter for an empty argv); that the real parser agrees under all 72 configurations and both "
+             "APIs is what the correspondence and the oracle check on every run."),
     "note": ("Trusted: Lean kernel + standard axioms; harness. Modelled not verified: field_wrapper.py:711-821, "
              "dataclass_wrapper.py:94-179,256-315, parsing.py:794-991,1135-1161. ALWAYS_MERGE with a reused class is outside "
-             "this model (merged defaults, C11): those cases are run on the real code and judged by the oracle only."),
+             "this model (merged defaults, C11): those cases are run on the real code and judged by the oracle only. "
+             "Inheritance is invisible to the model (it sees dataclasses.fields(), the flattened list) and checked by the "
+             "differential run only. The Optional rule compares values structurally where parsing.py:1189 uses Python != "
+             "(1 == 1.0 == True): on an empty command line the only rewritten values are strings converted to non-strings, "
+             "which differ under both. A default_factory=Cls whose Cls() raises is totalised in the model (set-up phase not "
+             "modelled) and not generated without a caller default."),
     "technique": "Lean 4 mutual induction over class trees + differential check under all parser configurations",
     "design_ref": "DESIGN.md section 5, C01",
 }
@@ -46,6 +62,19 @@ DESTS = ["cfg", "a1", "b2", "train"]
 ALL_CR = ["AUTO", "EXPLICIT", "NONE", "ALWAYS_MERGE"]
 
 
+def gen_leaf_value(rng, t):
+    """a value of the annotation; a float-typed position sometimes holds an int (`x: float = 1`: accepted by every type
+    checker, and `1 == 1.0` for Python while the two are different values for the model)"""
+    v = G.gen_value(rng, t)
+    inner = t["inner"] if t["k"] == "opt" else t
+    if inner["k"] == "float" and v["t"] == "float" and rng.random() < 0.3:
+        return {"t": "int", "v": str(rng.choice([0, 1, -1, 3, 100]))}
+    if inner["k"] in ("list", "vtuple") and inner["item"]["k"] == "float" and v["t"] in ("list", "tuple") and rng.random() < 0.3:
+        return {"t": v["t"], "v": [{"t": "int", "v": str(rng.choice([0, 1, 2]))} if x["t"] == "float" and i % 2 == 0 else x
+                                   for i, x in enumerate(v["v"])]}
+    return v
+
+
 def gen_leaf(rng, nm, allow_required):
     t = G.gen_ty(rng, p_opt=0.2, p_union=0.03)
     if allow_required and rng.random() < 0.2:
@@ -53,7 +82,7 @@ def gen_leaf(rng, nm, allow_required):
     elif t["k"] == "opt" and rng.random() < 0.5:
         d = {"kind": "value", "v": {"t": "none"}}
     else:
-        d = {"kind": "value", "v": G.gen_value(rng, t)}
+        d = {"kind": "value", "v": gen_leaf_value(rng, t)}
     return {"kind": "leaf", "f": {"name": nm, "ty": t, "default": d}}
 
 
@@ -61,7 +90,7 @@ def gen_inst(rng, tree):
     fields = []
     for f in tree["fields"]:
         if f["kind"] == "leaf":
-            fields.append([f["f"]["name"], G.gen_value(rng, f["f"]["ty"])])
+            fields.append([f["f"]["name"], gen_leaf_value(rng, f["f"]["ty"])])
         else:
             if f["optional"] and rng.random() < 0.35:
                 fields.append([f["name"], {"t": "none"}])
@@ -70,18 +99,25 @@ def gen_inst(rng, tree):
     return {"t": "inst", "cls": tree["cls"], "v": fields}
 
 
-def gen_tree(rng, depth, counter, allow_required=False, names=None):
+def gen_tree(rng, depth, counter, allow_required=False, pool=None, bare=False):
+    """`pool`: the class trees finished so far in this case — a member may be of a class that already occurs elsewhere
+    (twice inside one tree, or in another registration's tree); a finished tree cannot contain the one being built."""
+    pool = [] if pool is None else pool
     cls = f"K{counter[0]}"
     counter[0] += 1
     n_leaf = rng.choice([0, 1, 1, 2, 2, 3, 4])
     n_child = rng.choice([0, 1, 1, 2]) if depth > 0 else 0
-    if n_leaf + n_child == 0:
-        n_leaf = 1
+    if n_leaf + n_child == 0 and rng.random() < 0.6:
+        n_leaf = 1                      # else: the empty dataclass
     leaf_names = rng.sample(LEAF_NAMES, n_leaf)
     child_names = rng.sample(CHILD_NAMES, n_child)
     fields = [gen_leaf(rng, nm, allow_required) for nm in leaf_names]
     for nm in child_names:
-        sub = gen_tree(rng, depth - 1, counter, allow_required)
+        cands = [t for t in pool if depth_of(t) <= depth]
+        if cands and rng.random() < 0.2:
+            sub = copy.deepcopy(rng.choice(cands))      # the same class at a second place
+        else:
+            sub = gen_tree(rng, depth - 1, counter, allow_required, pool, bare)
         optional = rng.random() < 0.4
         r = rng.random()
         if optional:
@@ -90,6 +126,10 @@ def gen_tree(rng, depth, counter, allow_required=False, names=None):
             kind = "factory_cls" if r < 0.6 else "factory_inst"
             if allow_required and r > 0.9:
                 kind = "missing"
+        if bare and kind == "factory_cls" and not constructible(sub):
+            # `default_factory=Cls` with a `Cls` that needs arguments: the factory itself raises TypeError while the parser
+            # is set up (the model has no set-up phase: Defaults.lean totalises this arm); an explicit instance instead
+            kind = "factory_inst"
         d = {"kind": kind}
         if kind == "factory_inst":
             d["v"] = gen_inst(rng, sub)
@@ -99,7 +139,20 @@ def gen_tree(rng, depth, counter, allow_required=False, names=None):
     def has_default(f):
         return (f["f"]["default"]["kind"] != "missing") if f["kind"] == "leaf" else (f["dflt"]["kind"] != "missing")
     fields.sort(key=has_default)
-    return {"cls": cls, "fields": fields}
+    tree = {"cls": cls, "fields": fields}
+    # inheritance: the first k fields are declared by a base class; the subclass may re-declare one of them with another
+    # default (the field keeps its position). The flattened field list — what dataclasses.fields() reports — is unchanged.
+    if len(fields) >= 1 and rng.random() < 0.2:
+        k = rng.randint(1, len(fields))
+        base = {"cls": cls + "B", "n": k}
+        over = [f for f in fields[:k] if f["kind"] == "leaf" and f["f"]["default"]["kind"] == "value"]
+        if over and rng.random() < 0.6:
+            f = rng.choice(over)
+            base["override"] = f["f"]["name"]
+            base["base_default"] = {"kind": "value", "v": gen_leaf_value(rng, f["f"]["ty"])}
+        tree["base"] = base
+    pool.append(tree)
+    return tree
 
 
 def leaf_names_of(tree):
@@ -129,23 +182,78 @@ def constructible(tree):
     return True
 
 
+def _leaf(nm, ty, v):
+    return {"kind": "leaf", "f": {"name": nm, "ty": ty, "default": {"kind": "value", "v": v}}}
+
+
+def enumerated():
+    """seed-independent slice of the thorough tier: every small shape below under EVERY parser configuration and both
+    APIs (4x3x3x2 for ArgumentParser, 4x3x3 for parse(), which has no nested mode): a flat class with one leaf from a
+    6-annotation alphabet; a parent with one leaf and one member, for every kind of member default x Optional or not x a
+    3-annotation alphabet for the member's leaf x {no caller default, caller instance, caller instance with the member None}"""
+    I, S = (lambda k: {"t": "int", "v": str(k)}), (lambda x: {"t": "str", "v": x})
+    alphabet = [
+        ({"k": "int"}, I(0), I(7)),
+        ({"k": "str"}, S(""), S("a b")),
+        ({"k": "opt", "inner": {"k": "float"}}, {"t": "none"}, {"t": "float", "v": "2.5"}),
+        ({"k": "list", "item": {"k": "int"}}, {"t": "list", "v": [I(1), I(2)]}, {"t": "list", "v": []}),
+        ({"k": "tuple", "items": [{"k": "int"}, {"k": "str"}]}, {"t": "tuple", "v": [I(1), S("x")]}, {"t": "tuple", "v": [I(2), S("")]}),
+        ({"k": "literal", "vals": [I(0), S("zero"), I(1)]}, S("zero"), I(1)),
+    ]
+    shapes = []
+    for ty, d, other in alphabet:
+        tree = {"cls": "K0", "fields": [_leaf("x", ty, d)]}
+        shapes.append((tree, None))
+        shapes.append((tree, {"t": "inst", "cls": "K0", "v": [["x", other]]}))
+    for ty, d, other in (alphabet[0], alphabet[3], alphabet[4]):
+        sub = {"cls": "K1", "fields": [_leaf("x", ty, d)]}
+        sub_inst = {"t": "inst", "cls": "K1", "v": [["x", other]]}
+        for optional, kind in [(True, "none"), (False, "factory_cls"), (True, "factory_cls"), (False, "factory_inst"), (True, "factory_inst")]:
+            dflt = {"kind": kind}
+            if kind == "factory_inst":
+                dflt["v"] = sub_inst
+            tree = {"cls": "K0", "fields": [_leaf("a", {"k": "int"}, I(1)),
+                                            {"kind": "child", "name": "m", "optional": optional, "dflt": dflt, "tree": sub}]}
+            shapes.append((tree, None))
+            shapes.append((tree, {"t": "inst", "cls": "K0", "v": [["a", I(3)], ["m", {"t": "inst", "cls": "K1", "v": [["x", d]]}]]}))
+            if optional:
+                shapes.append((tree, {"t": "inst", "cls": "K0", "v": [["a", I(3)], ["m", {"t": "none"}]]}))
+    for tree, caller in shapes:
+        for cr in ALL_CR:
+            for dash in sp.ALL_DASH:
+                for g in sp.ALL_GEN:
+                    for api, nests in (("parser", sp.ALL_NEST), ("parse", ["DEFAULT"])):
+                        for nest in nests:
+                            yield {"op": "defaults.empty", "case": {"cfg": {"cr": cr, "dash": dash, "gen": g, "nest": nest}, "api": api,
+                                                                    "regs": [{"tree": copy.deepcopy(tree), "dest": "cfg", "caller": copy.deepcopy(caller)}]}}
+
+
 def gen(rng, tier):
-    n = 500 if tier == "quick" else 18000
+    n = 500 if tier == "quick" else 13500
+    if tier == "thorough":
+        yield from enumerated()
     for _ in range(n):
         counter = [0]
+        pool = []
         with_caller = rng.random() < 0.45
+        # ~5%: classes the constructor cannot build by itself and NO caller default: the property is silent (oracle skips),
+        # the model's exit-2 / raise branches are compared with the real parser
+        bare = (not with_caller) and rng.random() < 0.18
         api = rng.choice(["parser", "parser", "parse"])
         cfg = {"cr": rng.choice(ALL_CR), "dash": rng.choice(sp.ALL_DASH), "gen": rng.choice(sp.ALL_GEN), "nest": rng.choice(sp.ALL_NEST)}
-        nreg = 1 if api == "parse" else rng.choice([1, 1, 2, 3])
+        # (a single registration then: one failing destination makes the whole parse fail, which the per-destination model
+        # does not express)
+        nreg = 1 if (api == "parse" or bare) else rng.choice([1, 1, 2, 3])
         regs = []
         trees = []
         for i in range(nreg):
             if trees and rng.random() < 0.5:
                 tree = copy.deepcopy(rng.choice(trees))  # the same class at several destinations
             else:
-                tree = gen_tree(rng, rng.choice([0, 1, 1, 2, 3]), counter, allow_required=with_caller and rng.random() < 0.5)
+                tree = gen_tree(rng, rng.choice([0, 1, 1, 2, 3]), counter, allow_required=bare or (with_caller and rng.random() < 0.5),
+                                pool=pool, bare=bare)
                 trees.append(tree)
-            caller = gen_inst(rng, tree) if (with_caller or not constructible(tree)) else None
+            caller = gen_inst(rng, tree) if (with_caller or (not bare and not constructible(tree))) else None
             regs.append({"tree": tree, "dest": DESTS[i], "caller": caller})
         reuse = len({r["tree"]["cls"] for r in regs}) < len(regs)
         # configurations in which set-up legitimately fails (C03's subject, not C01's): NONE raises on any name clash;
@@ -201,7 +309,20 @@ def class_specs(tree, out, seen):
             else:
                 d = {"kind": "factory", "v": f["dflt"]["v"]}
             fields.append({"name": f["name"], "ty": ty, "default": d})
-    out.append({"name": tree["cls"], "fields": fields})
+    b = tree.get("base")
+    if b:
+        # `class KB: <first n fields>` / `class K(KB): <the others> [+ one re-declared field with its real default]`
+        own = fields[b["n"]:]
+        inherited = []
+        for f in fields[:b["n"]]:
+            if f["name"] == b.get("override"):
+                own = own + [f]
+                f = dict(f, default=b["base_default"])
+            inherited.append(f)
+        out.append({"name": b["cls"], "fields": inherited})
+        out.append({"name": tree["cls"], "fields": own, "bases": [b["cls"]]})
+    else:
+        out.append({"name": tree["cls"], "fields": fields})
 
 
 def enums_of_tree(tree, out):
@@ -260,7 +381,7 @@ def add_class(u, spec):
             elif d["kind"] == "factory":
                 kw["default_factory"] = (lambda dv: (lambda: u.val(dv)))(d["v"])
             fields.append((f["name"], u.ty(f["ty"]), dataclasses.field(**kw)))
-    cls = dataclasses.make_dataclass(spec["name"], fields)
+    cls = dataclasses.make_dataclass(spec["name"], fields, bases=tuple(u.classes[b] for b in spec.get("bases", [])))
     u.classes[spec["name"]] = cls
     return cls
 
@@ -431,9 +552,12 @@ def oracle(case, obs):
     for r in c["regs"]:
         names += leaf_names_of(r["tree"])
     clash = len(names) != len(set(names))
+    unbuildable = any("ctor" in ref for ref in obs["refs"])
     for r, o, ref in zip(c["regs"], obs["outs"], obs["refs"]):
         if "ctor" in ref:
             continue  # the class is not constructible by itself and no default was supplied: outside the property
+        if unbuildable and o["o"] != "ok":
+            continue  # one parser: another destination's missing required value fails the whole parse
         if o["o"] == "raise" and o.get("exc") == "ConflictResolutionError" and clash:
             continue  # set-up may give up on a forest with real name clashes (allowed by C03); not C01's subject
         if o["o"] != "ok":
@@ -464,12 +588,82 @@ def nontrivial(case, obs):
     return len(c["regs"]) >= 2 or any(r["caller"] is not None or depth_of(r["tree"]) >= 2 for r in c["regs"])
 
 
+def _walk(tree):
+    yield tree
+    for f in tree["fields"]:
+        if f["kind"] == "child":
+            yield from _walk(f["tree"])
+
+
+def _falsy(v):
+    return (v["t"] in ("int", "float") and float(v["v"]) == 0) or (v["t"] in ("str", "list", "tuple") and len(v["v"]) == 0) \
+        or (v["t"] == "bool" and not v["v"]) or (v["t"] == "enum" and (v.get("cls"), v["v"]) in (("Level", "NONE"), ("Prio", "P0")))
+
+
+def _caller_nested_none(inst, tree):
+    """does the caller instance leave an Optional dataclass MEMBER (any depth) at None?"""
+    if inst is None:
+        return False
+    vals = {k: v for k, v in inst["v"]}
+    for f in tree["fields"]:
+        if f["kind"] == "child":
+            v = vals.get(f["name"])
+            if v is None or v.get("t") == "none":
+                return True
+            if _caller_nested_none(v, f["tree"]):
+                return True
+    return False
+
+
 def tags(case, obs):
     c = case["case"]
     t = [f"cr:{c['cfg']['cr']}", f"api:{c['api']}", f"regs:{len(c['regs'])}", f"depth:{max(depth_of(r['tree']) for r in c['regs'])}",
          f"caller:{any(r['caller'] is not None for r in c['regs'])}", f"gen:{c['cfg']['gen']}", f"dash:{c['cfg']['dash']}", f"nest:{c['cfg']['nest']}"]
+    extra = set()
+    classes_seen = []
+    for r in c["regs"]:
+        if r["caller"] is not None and _caller_nested_none(r["caller"], r["tree"]):
+            extra.add("caller-nested-none")
+        if r["caller"] is None and not constructible(r["tree"]):
+            extra.add("no-ctor-no-caller")
+        inside = [n["cls"] for n in _walk(r["tree"])]
+        if len(inside) != len(set(inside)):
+            extra.add("class-twice-in-tree")
+        if set(inside) & set(classes_seen):
+            extra.add("class-shared-across-regs")
+        classes_seen += inside
+        for node in _walk(r["tree"]):
+            if not node["fields"]:
+                extra.add("empty-class")
+            if node.get("base"):
+                extra.add("inherit:override" if node["base"].get("override") else "inherit")
+            for f in node["fields"]:
+                if f["kind"] == "child":
+                    extra.add("member:" + f["dflt"]["kind"] + (":opt" if f["optional"] else ""))
+                    continue
+                ty = f["f"]["ty"]
+                inner = ty
+                if ty["k"] == "opt":
+                    extra.add("leaf:opt")
+                    inner = ty["inner"]
+                k = inner["k"]
+                if k == "enum" and inner["cls"] in ("Level", "Prio"):
+                    k = "enum-mixin"
+                extra.add("leaf:" + k)
+                d = f["f"]["default"]
+                if d["kind"] == "missing":
+                    extra.add("leaf-default:missing")
+                elif d["v"]["t"] == "none":
+                    extra.add("leaf-default:none")
+                else:
+                    if _falsy(d["v"]):
+                        extra.add("leaf-default:falsy")
+                    if k == "float" and d["v"]["t"] == "int":
+                        extra.add("leaf-default:int-for-float")
+    t += sorted(extra)
     if "outs" in obs:
-        t += ["out:" + o["o"] for o in obs["outs"]]
+        t += ["out:" + o["o"] + (":" + str(o.get("exc") or o.get("code")) if o["o"] != "ok" else "") for o in obs["outs"]]
+        t.append("reparse-probe:" + ("0" if not obs.get("n_scribbled") else "1+"))
     else:
         t.append("build_error")
     return t
